@@ -132,3 +132,20 @@ func init() {
 		LevelText:   "exploration: generated hostile inputs through the real parsers; the boundary assertion sees every subject of every run of every check",
 		LevelNote:   "trusted base: reference decoder written from the property text and protocol documents"})
 }
+
+func init() {
+	add(&Prop{ID: "C04", Level: "fault_enumeration", Shards: 16,
+		Technique:   "runtime monitoring with fault enumeration: every request kind x every access outcome x answer order x token history x concurrent request, with a frame/body scanner for resource data, boundary checks of the access payload and hooked subscription state",
+		Rule:        "complete enumeration of {subscribe, get, new, call and auth with resource response, HTTP GET} x {grant, get:false, empty result, missing result, RES error, accessDenied error, timeout, no responders, invalid JSON} x {access answered first, gets answered first} x {no token, token set} x {single, second concurrent request on the rid} x {latest, 1.1.1 client}; the resource carries a marker string that must not appear in any frame/body without a grant and must appear with one; on denial the error / errors entry, hook direct count 0 and a failing follow-up unsubscribe are required; every case is non-trivial and distinct by construction",
+		Assumptions: []string{"indirect resources are covered by the root's grant (as the property states)", "below protocol 1.2.0 call/auth resource responses are a bare {rid} without subscription, so nothing is denied there"},
+		DesignRef:   "DESIGN.md §4 C04",
+		LevelText:   "fault enumeration: the stated product of request kinds and access outcomes is executed completely against the real gateway",
+		LevelNote:   "trusted base: marker scan of all frames and HTTP bodies, VerifConns hook, SimBus"})
+	add(&Prop{ID: "C06", Level: "fault_enumeration", Shards: 16,
+		Technique:   "runtime monitoring with fault enumeration: every trigger x verdict x holding x trigger position, the access answer withheld at exact partial quiescence while events are injected, then released; frame log and hooked state checked",
+		Rule:        "complete enumeration of {token event, reaccess event, system reset with access pattern} x 9 verdicts x {held directly, directly and indirectly} x {1, 3 connections} x {idle, loading a new reference, earlier re-check pending} x {single, repeated trigger}; required: a re-check per affected connection (none for bystanders) with the current token, no event handed in after the trigger visible before the verdict, unsubscribe event with the reason and no direct subscription after a non-grant, all events in order after a grant; every case is non-trivial and distinct by construction",
+		Assumptions: []string{"'after the trigger' = the trigger's mq callback had returned before the event was published (same FIFO), which the single-threaded driver guarantees"},
+		DesignRef:   "DESIGN.md §4 C06",
+		LevelText:   "fault enumeration over trigger kind, verdict, holding, position and repetition",
+		LevelNote:   "trusted base: exact partial quiescence (everything idle except the withheld access request), SimBus ordering"})
+}
